@@ -78,6 +78,22 @@ CLAIMED = {
              'pycel\'s documented comparison slack. Systems of 2-5 cells, iterations <= 200.',
         technique=TECH + ': seeded histories; logical pass clock through a plugin function; analytic fixed-point oracle',
         design='DESIGN.md section 3 C06'),
+    'C07': dict(
+        level='exploration',
+        text='2-3 real threads, each with its own compiled workbook and program (iterative evaluation with '
+             'per-thread settings and a PROBE pass counter, array formulas that need fit_to_range, plain '
+             'histories, from_file of plain/iterative models, set_value + trim_graph), run under a '
+             'baton-passing scheduler that decides every switch at yield points of cell-evaluation granularity '
+             '(operation boundaries, entry/return of every formula evaluation and of every _C_/_R_ read). '
+             'Schedules: the systematic (j, k) family over a 24 x 24 grid per workload pair and seeded random '
+             'switching. Per thread the outcomes and pass counts must equal the alone run on a used thread; '
+             'the alone runs on a fresh and on a warmed-up thread must equal it too.',
+        note='Trusted: the scheduler (one runnable thread at a time; a thread running without the baton is a '
+             'harness error), yield points at cell-evaluation granularity only (no pre-emption between '
+             'arbitrary bytecodes), threads never share a compiler. Known finding KF4 (CELL / reference-form '
+             'INDEX read through another compiler) is re-confirmed by a fixed minority of runs.',
+        technique=TECH + ': real threads under a deterministic baton-passing scheduler, enumerated (j,k) and seeded random schedules vs. alone-run oracle',
+        design='DESIGN.md section 3 C07'),
     'C08': dict(
         level='exploration',
         text='Seeded histories around one trim_graph(inputs, outputs): writes/reads before it, then input '
@@ -139,7 +155,7 @@ NOT_APPLICABLE = {
     'C20': 'text functions are pure string functions',
 }
 
-PENDING = {k: 'applicable (see DESIGN.md) but its check is not built yet in this snapshot; not claimed until it is' for k in ('C07',)}
+PENDING = {}
 
 
 def main():
